@@ -48,7 +48,32 @@ func (db *DB) Query(sqlString string, isSubQuery bool, subQueryResults [][]inter
 		return nil, err
 	}
 	db.log.Debugf("\n------------ Query Plan ------------\n\n%v\n\n%v\n----------- End Query Plan ----------", sqlString, core.FormatSource(plan))
-	return plan, nil
+	return &recoveringSource{plan}, nil
+}
+
+// recoveringSource turns a panic while a query is being executed (a malformed
+// expression that only fails when it meets data, e.g. IF(d > 1, '-1s' b)) into
+// that query's error: the caller of Iterate may be an RPC or HTTP handler, or
+// the embedding application.
+type recoveringSource struct {
+	core.FlatRowSource
+}
+
+func (s *recoveringSource) Iterate(ctx context.Context, onFields core.OnFields, onRow core.OnFlatRow) (md interface{}, err error) {
+	defer func() {
+		if p := recover(); p != nil {
+			err = fmt.Errorf("Unable to execute query: %v", p)
+		}
+	}()
+	return s.FlatRowSource.Iterate(ctx, onFields, onRow)
+}
+
+func (s *recoveringSource) GetSource() core.Source {
+	return s.FlatRowSource
+}
+
+func (s *recoveringSource) String() string {
+	return "query"
 }
 
 func (db *DB) getQueryable(table string, outFields func(tableFields core.Fields) (core.Fields, error), includeMemStore bool) (*queryable, error) {
